@@ -280,10 +280,12 @@ def dep_schema(rng, positions=None, ref_kinds=None, allow_known_bad=False):
     for k, pos in enumerate(positions):
         kind = rng.choice(kinds)
         before = (k + flip) % 2 == 0
-        if not allow_known_bad and dep_known_bad(kind, pos, before):
-            kind = rng.choice([x for x in kinds if x not in OBJECT_LEVEL] or ['prop-exclusive'])
         om = rng.choice(MODULES)
         rm = om if rng.random() < 0.6 else rng.choice(MODULES)
+        # DESCRIBE prints the modules alphabetically too: across modules the module order decides
+        printed_first = before if om == rm else (om < rm)
+        if not allow_known_bad and dep_known_bad(kind, pos, printed_first):
+            kind = rng.choice([x for x in kinds if x not in OBJECT_LEVEL] or ['prop-exclusive'])
         names = {'R': f'M{k}Ref', 'T': f'M{k}Tgt', 'N': f'M{k}Named', 'C': f'M{k}Code',
                  'O': f'{"A" if before else "Z"}{k}Own', 'F': f'fn{k}', 'G': f'gl{k}', 'A': f'Al{k}'}
         q = {('Q' + key): (val if rm == om and rng.random() < 0.5 else f'{rm}::{val}')
@@ -293,7 +295,7 @@ def dep_schema(rng, positions=None, ref_kinds=None, allow_known_bad=False):
         decls[rm].append(rdecl.format(**names, **{k2: v2.split('::')[-1] for k2, v2 in q.items()}))
         e = expr.format(**names, **q)
         owners[om].append(DEP_POS[pos].replace('E', e).format(**names, **q))
-        info.append((pos, kind, 'before' if before else 'after', om, rm))
+        info.append((pos, kind, 'before' if printed_first else 'after', om, rm))
     owners['default'].append(SELF_DEP.format(O='ASelfDep'))
     owners['other'].append(SELF_DEP.format(O='ZSelfDep'))
     # original text: ALL referenced declarations (of every module) first, then the owners — module blocks
